@@ -11,6 +11,7 @@ from .values import (
     IntSeqSort,
     SBool,
     SClosure,
+    SDec,
     SDict,
     SExc,
     SExcClass,
@@ -55,6 +56,8 @@ class BuiltinsMixin:
     # ------------------------------------------------------------------ built-in functions
     def bi_len(self, v):
         v = self.resolve(v)
+        if isinstance(v, SDec):
+            return self.wrap_int(self.dec_len(v))
         if isinstance(v, (SStr, SSeq)):
             return self.wrap_int(self.len_z3(v))
         if isinstance(v, (str, bytes, tuple)):
@@ -568,6 +571,11 @@ class BuiltinsMixin:
             return obj[slice(*parts)]
         if isinstance(obj, SList) and conc:
             return SList(obj.items[slice(*parts)])
+        if isinstance(obj, SDec):
+            if isinstance(parts[0], int) and parts[0] < 0 and parts[1] is None and parts[2] is None and -parts[0] <= obj.w:
+                d = -parts[0]
+                return SDec(obj.v % (10 ** d), d)
+            raise Unsupported("slice of a decimal rendering other than [-d:] with d <= width")
         if isinstance(obj, (SStr, SSeq, str, bytes)):
             e = self.to_z3(obj)
             n = z3.Length(e)
@@ -575,7 +583,16 @@ class BuiltinsMixin:
             ln = z3.If(hi - lo < 0, z3.IntVal(0), hi - lo)
             sub = z3.SubString(e, lo, ln) if not isinstance(obj, SSeq) else z3.Extract(e, lo, ln)
             if isinstance(obj, SSeq):
-                return SSeq(z3.simplify(sub), obj.kind)
+                sub = z3.simplify(sub)
+                # instance facts of the sequence theory for short constant-length windows e[a : a + k]
+                if parts[0] is not None and parts[1] is not None:
+                    a0 = self.to_z3(parts[0], "int")
+                    diff = z3.simplify(self.to_z3(parts[1], "int") - a0)
+                    if z3.is_int_value(diff) and 0 < diff.as_long() <= 8:
+                        k = diff.as_long()
+                        facts = [z3.Length(sub) == k] + [sub[j] == e[a0 + j] for j in range(k)]
+                        self.run.assume(z3.Implies(z3.And(a0 >= 0, a0 + k <= n), z3.And(*facts)))
+                return SSeq(sub, obj.kind)
             return self.wrap_str(sub, self.kind_of(obj))
         raise Unsupported(f"slice of {pytype_name(obj)} with symbolic bounds")
 
@@ -648,6 +665,18 @@ class BuiltinsMixin:
         is_b = isinstance(fmt, bytes)
         f = fmt.decode("latin-1") if is_b else fmt
         pieces = re.split(r"(%(?:0?\*|0?\d*)[sdrx%])", f)
+        nonempty = [p for p in pieces if p]
+        if len(nonempty) == 1 and re.fullmatch(r"%0(\*|\d+)d", nonempty[0]) and not is_b:
+            if nonempty[0] == "%0*d" and len(arglist) == 2:
+                width, val = self.resolve(arglist[0]), self.resolve(arglist[1])
+            elif nonempty[0] != "%0*d" and len(arglist) == 1:
+                width, val = int(nonempty[0][2:-1]), self.resolve(arglist[0])
+            else:
+                raise RaiseSig(SExc(exc_class("TypeError")), self.lineno)
+            if isinstance(val, SInt) and isinstance(width, int) and width >= 1:
+                if not self.spec and self.run.branch(val.e < 0):
+                    raise Unsupported("zero padded negative number")
+                return SDec(val.e, width)
         out = []
         ai = 0
         for p in pieces:
